@@ -500,7 +500,7 @@ func (e *Engine) contractWrites(ws *WriteSet, fc *FuncContract) {
 	}
 	for _, a := range fc.Assigns {
 		// all(T.f) or ghost name or location expression: approximate by key
-		if ce, ok := a.Expr.(*ast.CallExpr); ok && identName(ce.Fun) == "all" {
+		if ce, ok := a.Expr.(*ast.CallExpr); ok && (identName(ce.Fun) == "all" || identName(ce.Fun) == "elems") {
 			if ks := e.allKeysOf(fc.PkgPath, ce); len(ks) > 0 {
 				for k, s := range ks {
 					ws.Keys[k] = true
@@ -536,6 +536,15 @@ func (e *Engine) contractWrites(ws *WriteSet, fc *FuncContract) {
 func (e *Engine) allKeysOf(pkgPath string, ce *ast.CallExpr) map[string]string {
 	out := map[string]string{}
 	if len(ce.Args) != 1 {
+		return out
+	}
+	if identName(ce.Fun) == "elems" {
+		// elems(T): the elements of every slice of T
+		if t := e.typeFromExpr(pkgPath, ce.Args[0]); t != nil {
+			for _, l := range leaves(t) {
+				out["E|"+typeKey(t)+"|"+l.Path] = l.Sort
+			}
+		}
 		return out
 	}
 	var parts []string
@@ -822,6 +831,9 @@ func (e *Engine) VerifyFunction(fc *FuncContract) *FuncResult {
 	st.assume(fmt.Sprintf("(= %s ((as const (Array Int Int)) 0))", sends))
 	st.ghost["$sends"] = leaf(nil, sends)
 	st.ghost["$lastsent"] = leaf(nil, x.fresh(st, "lastsent", "(Array Int Int)"))
+	rn := x.fresh(st, "recvnil", "(Array Int Bool)")
+	st.assume(fmt.Sprintf("(= %s ((as const (Array Int Bool)) false))", rn))
+	st.ghost["$recvnil"] = leaf(nil, rn)
 	// axioms
 	for _, ax := range e.cs.Axioms {
 		env := &Env{x: x, st: st, old: st, names: map[string]*Value{}, pkg: e.typesPkg(e.cs.AxiomPkg[ax]), pkgPath: e.cs.AxiomPkg[ax]}
@@ -974,7 +986,7 @@ func (x *Exec) frameSpecOf(st *State) *frameSpec {
 	}
 	pkg := x.fn.Pkg.Pkg
 	for _, a := range x.fc.Assigns {
-		if ce, ok := a.Expr.(*ast.CallExpr); ok && identName(ce.Fun) == "all" {
+		if ce, ok := a.Expr.(*ast.CallExpr); ok && (identName(ce.Fun) == "all" || identName(ce.Fun) == "elems") {
 			for k := range x.eng.allKeysOf(pkg.Path(), ce) {
 				allKeys[k] = true
 			}
@@ -1318,4 +1330,42 @@ func (x *Exec) frameGoal(key, cur, old string, _ bool, allowed []string) string 
 	}
 	alts = append(alts, fmt.Sprintf("(= (select %s qr) (select %s qr))", cur, old))
 	return fmt.Sprintf("(forall ((qr Int)) %s)", smtOr(alts))
+}
+
+// typeFromExpr resolves T, alias.T, *T, []T written in a contract to a Go type.
+func (e *Engine) typeFromExpr(pkgPath string, ex ast.Expr) types.Type {
+	switch n := ex.(type) {
+	case *ast.StarExpr:
+		if t := e.typeFromExpr(pkgPath, n.X); t != nil {
+			return types.NewPointer(t)
+		}
+	case *ast.ArrayType:
+		if n.Len == nil {
+			if t := e.typeFromExpr(pkgPath, n.Elt); t != nil {
+				return types.NewSlice(t)
+			}
+		}
+	case *ast.Ident:
+		if pkg := e.tpkgs[pkgPath]; pkg != nil {
+			if o := pkg.Scope().Lookup(n.Name); o != nil {
+				return o.Type()
+			}
+		}
+		if o := types.Universe.Lookup(n.Name); o != nil {
+			return o.Type()
+		}
+	case *ast.SelectorExpr:
+		if id, ok := n.X.(*ast.Ident); ok {
+			if m := e.cs.Imports[pkgPath]; m != nil {
+				if p, ok := m[id.Name]; ok {
+					if ip := e.tpkgs[p]; ip != nil {
+						if o := ip.Scope().Lookup(n.Sel.Name); o != nil {
+							return o.Type()
+						}
+					}
+				}
+			}
+		}
+	}
+	return nil
 }
